@@ -38,9 +38,17 @@ func csvHeaderCallback(c *Ctx) {
 					s.headerMaybe = true
 					s.pos = in.Pos()
 				}
-			case "setFieldNames":
-				if k, ok := st.Val.(*ssa.Const); !ok || k.Value != nil {
-					s.callback = true
+			default:
+				// the callback: a field of function or interface type (a function value, or a sink object) given a value
+				isCB := f.Name() == "setFieldNames"
+				switch f.Type().Underlying().(type) {
+				case *types.Signature, *types.Interface:
+					isCB = true
+				}
+				if isCB {
+					if k, ok := st.Val.(*ssa.Const); !ok || k.Value != nil {
+						s.callback = true
+					}
 				}
 			}
 		})
@@ -99,5 +107,5 @@ func csvHeaderCallback(c *Ctx) {
 		c.check(!headerMaybe || callback, "csv-header:callback:"+fnKey(fn), posOr(pos, fn.Pos()), "a CSV scanner whose header flag can be set is given the field-name callback",
 			fnKey(fn)+" uses a CSV scanner whose header flag can be true (it is not the constant false on the way here) without giving it the setFieldNames callback: the scanner calls the nil function on the first row - two-argument split() on a non-empty string in CSV/TSV header mode crashes the host")
 	}
-	c.atLeast("functions that run the CSV scanner", n, 3)
+	c.atLeast("functions that run the CSV scanner", n, 1)
 }
